@@ -153,13 +153,16 @@ class Categorize(Factory, Container):
 
     @inheritdoc(Container)
     def zero(self):
-        return Categorize(self.quantity, self.value)
+        out = Categorize(self.quantity, self.value)
+        out.contentType = self.contentType
+        return out
 
     @inheritdoc(Container)
     def __add__(self, other):
         if isinstance(other, Categorize):
             out = Categorize(self.quantity, self.value)
             out.entries = self.entries + other.entries
+            out.contentType = self.contentType
             out.bins = {}
             for k in self.keySet.union(other.keySet):
                 if k in self.bins and k in other.bins:
